@@ -63,6 +63,7 @@ type fakeFD struct {
 	msg    *fakeMD
 	enum   *fakeED
 	num    int
+	oneof  *fakeOneof // the oneof this field is a member of (nil: none)
 	parent *fakeMD
 }
 
@@ -77,18 +78,23 @@ func (f *fakeFD) FullName() protoreflect.FullName {
 }
 func (f *fakeFD) Parent() protoreflect.Descriptor                   { return f.parent }
 func (f *fakeFD) ContainingMessage() protoreflect.MessageDescriptor { return f.parent }
-func (f *fakeFD) ContainingOneof() protoreflect.OneofDescriptor     { return nil }
-func (f *fakeFD) IsExtension() bool                                 { return false }
-func (f *fakeFD) IsWeak() bool                                      { return false }
-func (f *fakeFD) IsPacked() bool                                    { return false }
-func (f *fakeFD) IsPlaceholder() bool                               { return false }
-func (f *fakeFD) HasJSONName() bool                                 { return f.json != f.name }
-func (f *fakeFD) HasOptionalKeyword() bool                          { return false }
-func (f *fakeFD) HasPresence() bool                                 { return f.kind == protoreflect.MessageKind && !f.list && !f.isMap }
-func (f *fakeFD) HasDefault() bool                                  { return false }
-func (f *fakeFD) TextName() string                                  { return f.name }
-func (f *fakeFD) Index() int                                        { return f.num - 1 }
-func (f *fakeFD) Syntax() protoreflect.Syntax                       { return protoreflect.Proto3 }
+func (f *fakeFD) ContainingOneof() protoreflect.OneofDescriptor {
+	if f.oneof == nil {
+		return nil
+	}
+	return f.oneof
+}
+func (f *fakeFD) IsExtension() bool           { return false }
+func (f *fakeFD) IsWeak() bool                { return false }
+func (f *fakeFD) IsPacked() bool              { return false }
+func (f *fakeFD) IsPlaceholder() bool         { return false }
+func (f *fakeFD) HasJSONName() bool           { return f.json != f.name }
+func (f *fakeFD) HasOptionalKeyword() bool    { return false }
+func (f *fakeFD) HasPresence() bool           { return f.kind == protoreflect.MessageKind && !f.list && !f.isMap }
+func (f *fakeFD) HasDefault() bool            { return false }
+func (f *fakeFD) TextName() string            { return f.name }
+func (f *fakeFD) Index() int                  { return f.num - 1 }
+func (f *fakeFD) Syntax() protoreflect.Syntax { return protoreflect.Proto3 }
 func (f *fakeFD) Cardinality() protoreflect.Cardinality {
 	if f.list || f.isMap {
 		return protoreflect.Repeated
@@ -245,7 +251,21 @@ func schemaTyped() *fakeMD {
 		&fakeFD{name: "i", kind: protoreflect.Int32Kind},
 		&fakeFD{name: "long_name", json: "longName", kind: protoreflect.StringKind},
 		&fakeFD{name: "bo", kind: protoreflect.BoolKind},
+		vfOneofMember("o1", 0), vfOneofMember("o2", 1),
 	)
+}
+
+var vfTypedOneof = &fakeOneof{name: "choice"}
+
+// vfOneofMember returns the idx-th member (a string field) of schemaTyped's oneof "choice"; the
+// descriptor objects are rebuilt per schema instance.
+func vfOneofMember(name string, idx int) *fakeFD {
+	if idx == 0 {
+		vfTypedOneof = &fakeOneof{name: "choice"}
+	}
+	f := &fakeFD{name: name, kind: protoreflect.StringKind, oneof: vfTypedOneof}
+	vfTypedOneof.members = append(vfTypedOneof.members, f)
+	return f
 }
 
 // schemaBody / schemaOut: request and reply types with DIFFERENT field sets, so that a selector
@@ -336,6 +356,9 @@ func (m *fakeMsg) Has(fd protoreflect.FieldDescriptor) bool {
 	_, b := m.subs[n]
 	_, c := m.lists[n]
 	if a {
+		if f, ok := fd.(*fakeFD); ok && f.oneof != nil {
+			return true // members of a oneof have presence
+		}
 		switch fd.Kind() {
 		case protoreflect.StringKind:
 			return v.String() != ""
@@ -396,15 +419,42 @@ func (m *fakeMsg) NewField(fd protoreflect.FieldDescriptor) protoreflect.Value {
 	}
 	return f.Default()
 }
-func (m *fakeMsg) GetUnknown() protoreflect.RawFields                                   { return nil }
-func (m *fakeMsg) SetUnknown(protoreflect.RawFields)                                    {}
-func (m *fakeMsg) New() protoreflect.Message                                            { return newFakeMsg(m.md) }
-func (m *fakeMsg) WhichOneof(protoreflect.OneofDescriptor) protoreflect.FieldDescriptor { return nil }
+func (m *fakeMsg) GetUnknown() protoreflect.RawFields { return nil }
+func (m *fakeMsg) SetUnknown(protoreflect.RawFields)  {}
+func (m *fakeMsg) New() protoreflect.Message          { return newFakeMsg(m.md) }
+func (m *fakeMsg) WhichOneof(od protoreflect.OneofDescriptor) protoreflect.FieldDescriptor {
+	o, ok := od.(*fakeOneof)
+	if !ok {
+		return nil
+	}
+	for _, f := range o.members {
+		if _, set := m.vals[f.name]; set {
+			return f
+		}
+	}
+	return nil
+}
+
+// fakeOneof: a real (non-synthetic) oneof; a member of a oneof has presence and setting it clears
+// its siblings.
+type fakeOneof struct {
+	protoreflect.OneofDescriptor
+	name    string
+	members []*fakeFD
+}
+
+func (o *fakeOneof) Name() protoreflect.Name { return protoreflect.Name(o.name) }
+func (o *fakeOneof) IsSynthetic() bool       { return false }
 
 func (m *fakeMsg) Set(fd protoreflect.FieldDescriptor, v protoreflect.Value) {
 	m.own(fd)
 	m.sets++
 	f := fd.(*fakeFD)
+	if f.oneof != nil {
+		for _, sib := range f.oneof.members {
+			delete(m.vals, sib.name)
+		}
+	}
 	switch {
 	case f.list:
 		if l, ok := v.List().(*fakeList); ok {
